@@ -780,6 +780,13 @@ func oracleC08(cx *CheckCtx, runs []*CaseRun) []Finding {
 				}
 			}
 			lastOut[k] = obs
+			// (1b) the import block of a File render binds every qualifier used in the body
+			if obs.Class == "ok" && o.Kind == OpRender {
+				if what := unboundQualifier(obs.Out, poolOf(cr.Case)); what != "" {
+					fs = append(fs, Finding{Property: "C08", Shape: "qualifier-not-declared", What: fmt.Sprintf("render #%d: %s", ri+1, what), Case: cr.Case.Text(), Observed: trunc(obs.Out)})
+					break
+				}
+			}
 			// (2) name stability
 			if obs.Class != "ok" || anonAfterUse {
 				continue
@@ -918,4 +925,35 @@ func hasNullDictSide(c *Case) bool {
 		}
 	}})
 	return found
+}
+
+// unboundQualifier: a selector q.Q<i>z whose qualifier q is not declared by the import block for
+// the path it was built from (a named spec with another name, or no spec at all).
+func unboundQualifier(src string, pool []string) string {
+	fset := token.NewFileSet()
+	f, err := parser.ParseFile(fset, "", src, 0)
+	if err != nil {
+		return ""
+	}
+	specs := parseImports(f)
+	for i, qs := range usesOf(f) {
+		if i >= len(pool) {
+			continue
+		}
+		for q := range qs {
+			if q == "" {
+				continue
+			}
+			ok := false
+			for _, s := range specs {
+				if s.path == pool[i] && (s.name == q || s.name == "") {
+					ok = true
+				}
+			}
+			if !ok {
+				return fmt.Sprintf("%s.%s is used but the import block does not declare %q under that name", q, qName(i), pool[i])
+			}
+		}
+	}
+	return ""
 }
